@@ -65,6 +65,9 @@ def gen_mr_case(rng, small=True, nfiles=None):
     return {"nf": nf, "files": files, "cfg": cfg, "names": names}
 
 
+PREFIX_NAMES = ["lib.npy", "lib-extra.npy", "lib.b.npy", "lib_x.npy", "lib0.npy", "lib+.npy"]
+
+
 def write_inputs(case, d: Path):
     paths = []
     z = len(str(len(case["files"])))
@@ -83,6 +86,10 @@ def write_inputs(case, d: Path):
             nm = f"in-{str(k - 1 - i).zfill(z)}.npy"
         elif scheme == "unpadded":
             nm = f"fps.{8 + i}.npy"
+        elif scheme == "prefix" and k <= len(PREFIX_NAMES):
+            # one stem is a prefix of the others: sorted by NAME ("lib.npy" after "lib-extra.npy") differs from
+            # sorted by stem, by suffix-less name, numerically, ...
+            nm = PREFIX_NAMES[i]
         else:
             nm = f"in-{str(i).zfill(z)}.npy"
         p = d / nm
@@ -636,6 +643,9 @@ def suite_crash(seed, tier):
         # one configuration in three has 11-13 input files: task labels are zero-padded to the
         # number of files, so a re-run with fewer files changes the label width
         many = (k % 3 == 1)
+        # the output directory's own name contains glob metacharacters in two configurations out of three
+        # (a purge / cleanup that globs on the joined path string then matches nothing, or something else)
+        suffix = ["", "[v2]", " x*y?"][k % 3]
         case = gen_mr_case(rng, nfiles=rng.choice([11, 12, 13])) if many else gen_mr_case(rng)
         while len(case["files"]) < 2:
             case = gen_mr_case(rng)
@@ -672,7 +682,7 @@ def suite_crash(seed, tier):
                 head = points[:3 * len(case["files"])] if many else []
                 points = sorted(set(head) | set(points[-6:]) | set(rng.sample(points, 14)))
             for cp in points:
-                d = tmp / f"c{cp}"
+                d = tmp / f"c{cp}{suffix}"
                 d.mkdir()
                 # leftovers of an unrelated earlier run + the crash
                 _, crashed = count_and_crash({**case, "cfg": {**case["cfg"], "cleanup": False}}, paths, d, cp)
@@ -682,7 +692,7 @@ def suite_crash(seed, tier):
                 if crashed and "clusters.pkl" in names:
                     r.bad.append({"suite": "crash", "what": f"a run that failed at file action {cp} of {total} "
                                   "left a final cluster file (clusters.pkl) behind", "case": case,
-                                  "crash_at": cp, "rerun": "none", "rerun_files": list(range(len(case["files"])))})
+                                  "crash_at": cp, "rerun": "none", "rerun_files": list(range(len(case["files"]))), "dir_suffix": suffix})
                     break
                 name, v, vp, ref = variants[2] if (many and cp <= 3 * len(case["files"])) else variants[cp % 3]
                 # files the workflow does not own must survive the re-run untouched
@@ -695,25 +705,27 @@ def suite_crash(seed, tier):
                     r.bad.append({"suite": "crash", "what": f"crash at file action {cp} followed by a re-run "
                                   f"({name}) in the same directory fails ({type(e).__name__}: {str(e)[:120]}) "
                                   "although the same run succeeds in a fresh directory",
-                                  "case": case, "crash_at": cp, "rerun": name, "rerun_files": keep_idx[name]})
+                                  "case": case, "crash_at": cp, "rerun": name, "rerun_files": keep_idx[name], "dir_suffix": suffix})
                     break
                 got = read_dir(d, case["nf"])
                 if len(terms) < (12 if tier == "quick" else 150) and (cp % 2 == 0 or tier != "quick"):
                     terms.append(f"check_mr fexp {cfg_term(v['cfg'])} {files_term(v)} {dir_term(before)} "
                                  f"(Some {dir_term(got)})")
-                    meta.append({"case": v, "crash_at": cp, "rerun": name,
+                    meta.append({"case": v, "crash_at": cp, "rerun": name, "dir_suffix": suffix,
                                  "leftovers": [n for n, _ in before]})
                 if not all(e in got for e in before if e[0] in ("zz-foreign.txt", "a-foreign.npy")):
                     r.bad.append({"suite": "crash", "what": "the re-run removed or changed a file it does not own",
-                                  "case": case, "crash_at": cp, "rerun": name, "rerun_files": keep_idx[name]})
+                                  "case": case, "crash_at": cp, "rerun": name, "rerun_files": keep_idx[name], "dir_suffix": suffix})
                     break
                 if finals(got) != ref:
                     r.bad.append({"suite": "crash", "what": f"crash at file action {cp} followed by a re-run "
                                   f"({name}) in the same directory gives other final clusters than a fresh directory",
-                                  "case": case, "crash_at": cp, "rerun": name, "rerun_files": keep_idx[name]})
+                                  "case": case, "crash_at": cp, "rerun": name, "rerun_files": keep_idx[name], "dir_suffix": suffix})
                     break
                 if v["cfg"]["cleanup"] and any(n.startswith("round-") for n, _ in got):
-                    r.bad.append({"suite": "crash", "what": "cleanup left intermediate round files", "case": case})
+                    r.bad.append({"suite": "crash", "what": "cleanup left intermediate round files", "case": case,
+                                  "crash_at": cp, "rerun": name, "rerun_files": keep_idx[name], "dir_suffix": suffix,
+                                  "check_cleanup": True})
                     break
                 shutil.rmtree(d)
     pre = hist.exp_preamble(120).replace("From BB Require Import Model.Obs.",
@@ -1012,18 +1024,22 @@ def replay_c14(payload):
             v, vp = {**v, "files": [case["files"][i] for i in keep]}, [paths[i] for i in keep]
         elif name == "fewer-files":
             v, vp = {**case, "files": case["files"][1:]}, paths[1:]
+        used = tmp / ("used" + fi.get("dir_suffix", ""))
         (tmp / "fresh").mkdir()
-        (tmp / "used").mkdir()
+        used.mkdir()
         if name == "none":
-            _, crashed = count_and_crash({**case, "cfg": {**case["cfg"], "cleanup": False}}, paths, tmp / "used", cp)
-            return not (crashed and (tmp / "used" / "clusters.pkl").exists())
+            _, crashed = count_and_crash({**case, "cfg": {**case["cfg"], "cleanup": False}}, paths, used, cp)
+            return not (crashed and (used / "clusters.pkl").exists())
         try:
             run_impl(v, tmp / "fresh", None, paths=vp)
-            count_and_crash({**case, "cfg": {**case["cfg"], "cleanup": False}}, paths, tmp / "used", cp)
-            run_impl(v, tmp / "used", None, paths=vp)
+            count_and_crash({**case, "cfg": {**case["cfg"], "cleanup": False}}, paths, used, cp)
+            run_impl(v, used, None, paths=vp)
         except Exception:
             return False
-        return finals(read_dir(tmp / "used", case["nf"])) == finals(read_dir(tmp / "fresh", case["nf"]))
+        got = read_dir(used, case["nf"])
+        if fi.get("check_cleanup") and v["cfg"]["cleanup"] and any(n.startswith("round-") for n, _ in got):
+            return False
+        return finals(got) == finals(read_dir(tmp / "fresh", case["nf"]))
 
 
 if __name__ == "__main__":
